@@ -141,7 +141,8 @@ class Gen:
         if 2 <= n <= 4 and r.random() < 0.12:
             # a slow drift: steps of hundreds of days, a threshold of a few 1e-9 per second -- rates that differ from
             # the threshold by less than any absolute tolerance a comparison might use (values kept small: 32-bit TLC)
-            t = [t[0] % 100 + i * r.choice([86400 * 400, 86400 * 250]) for i in range(n)]
+            step = r.choice([86400 * 400, 86400 * 250])          # (chosen once: the axis must stay increasing)
+            t = [t[0] % 100 + i * step for i in range(n)]
             x = [v if v == NA else abs(v) % 4 for v in x]
             thr = [1, r.choice([20000000, 10000000, 5000000])]      # (dx * denominator must stay below 2^31 also for derived calls)
         c = mk("roc", x=x, t=t, p={"thr": thr})
